@@ -136,3 +136,12 @@ package stateful
 //@   ensures [right-error] ${LERR} == nil && !(${SHORT}) && ${RERR} != nil ==> result1 != nil && result1.IsRight && !result1.IsLeft && result1.error == ${RERR}
 //@   ensures [fault-reported] ${LERR} == nil && !(${SHORT}) && ${RERR} == nil && (${FAULT}) ==> result1 != nil
 //@   ensures [value] ${LERR} == nil && !(${SHORT}) && ${RERR} == nil && !(${FAULT}) ==> result1 == nil && ${OUT}
+
+// ---------------------------------------------------------------- functions.go (C04, C05)
+
+// Every built-in function, applied to any argument list (any length, any dynamic types and
+// values): it returns a value or an error -- it does not panic. No functional contract here: the
+// obligations are the ones the code itself raises (index and slice bounds, nil dereference,
+// failed type assertion, integer division, conversions, explicit panic).
+//@ sweep ^\(\*?\w+\)\.Call$
+//@   props C04 C05
